@@ -86,7 +86,7 @@ func ruleNewEventLayout(r *Run, p *Prog) {
 			case *ssa.Store:
 				if fa, ok := x.Addr.(*ssa.FieldAddr); ok && ev != nil && sameObj(fa.X, ev) {
 					fv := fieldVar(fa)
-					if fv.Name() == "ch" {
+					if fname(fv) == "ch" {
 						chStored = true
 						chFromHooks = isFieldOfParam(x.Val, ne, 0, "hooks")
 					}
@@ -310,7 +310,7 @@ func ruleHookPlumbing(r *Run, p *Prog) {
 				return
 			}
 			fa, ok := st.Addr.(*ssa.FieldAddr)
-			if !ok || !typeIs(fa.X.Type(), modPath, "Event") || fieldVar(fa).Name() != "ch" {
+			if !ok || !typeIs(fa.X.Type(), modPath, "Event") || fname(fieldVar(fa)) != "ch" {
 				return
 			}
 			okc := (f == ne && isFieldOfParam(st.Val, f, 0, "hooks")) || (f == pne && isNilConst(st.Val))
@@ -356,7 +356,7 @@ func ruleHookAppend(r *Run, p *Prog, lh *ssa.Function) {
 	n := 0
 	eachInstr(lh, func(b *ssa.BasicBlock, i int, in ssa.Instruction) {
 		if s, ok := in.(*ssa.Store); ok {
-			if fa, ok := s.Addr.(*ssa.FieldAddr); ok && fieldVar(fa).Name() == "hooks" {
+			if fa, ok := s.Addr.(*ssa.FieldAddr); ok && fname(fieldVar(fa)) == "hooks" {
 				st = s
 				n++
 			}
@@ -486,9 +486,9 @@ func ruleLevelSlots(r *Run, p *Prog, rule, tname, meth, suffix string, levelPara
 			}
 			if fv, base := loadedField(pa.Resolve(c.X)); fv != nil && isNilConst(c.Y) && (isParam(base, f, 0) || isAllocOfParam(base, f, 0)) {
 				if c.Op == token.NEQ {
-					nonNil = append(nonNil, fv.Name())
+					nonNil = append(nonNil, fname(fv))
 				} else if c.Op == token.EQL {
-					isNilF = append(isNilF, fv.Name())
+					isNilF = append(isNilF, fname(fv))
 				}
 			}
 		}
@@ -497,7 +497,7 @@ func ruleLevelSlots(r *Run, p *Prog, rule, tname, meth, suffix string, levelPara
 		for _, in := range pa.Instrs() {
 			if c, ok := in.(*ssa.Call); ok && c.Call.IsInvoke() {
 				if fv, base := loadedField(pa.Resolve(c.Call.Value)); fv != nil && (isParam(base, f, 0) || isAllocOfParam(base, f, 0)) {
-					called = append(called, fv.Name())
+					called = append(called, fname(fv))
 					// forwards the method's own parameters in order
 					for k, a := range c.Call.Args {
 						if k+1 >= len(f.Params) || a != ssa.Value(f.Params[k+1]) {
@@ -515,7 +515,7 @@ func ruleLevelSlots(r *Run, p *Prog, rule, tname, meth, suffix string, levelPara
 				res := pa.Resolve(ret.Results[0])
 				if len(called) == 1 {
 					if c, isC := res.(*ssa.Call); isC && c.Call.IsInvoke() {
-						if fv, _ := loadedField(pa.Resolve(c.Call.Value)); fv != nil && fv.Name() == called[0] {
+						if fv, _ := loadedField(pa.Resolve(c.Call.Value)); fv != nil && fname(fv) == called[0] {
 							okRes = true
 						}
 					}
